@@ -280,7 +280,9 @@ func c15Judge(r *vkit.Run, check string, in c15Input, report any, obs c15Obs) {
 	}
 }
 
-var c15Msgs = []string{"m", "", "m\n", "m\r\n", "a\nb", "\n", "\xff", "m\r", " m \n", "\tm\t", "m\n\n", "m\r\n\r\n", "m\n\r", "\r\r\n\n", "100%", "%d %s%", "%!x(MISSING)\n"}
+var c15Msgs = []string{"m", "", "m\n", "m\r\n", "a\nb", "\n", "\xff", "m\r", " m \n", "\tm\t", "m\n\n", "m\r\n\r\n", "m\n\r", "\r\r\n\n", "100%", "%d %s%", "%!x(MISSING)\n",
+	// messages that carry escape sequences of their own (printed as they are, with or without colours)
+	"\x1b[31mred", "\x1b[1mbold\x1b[0m", "pre\x1b[0m\n", "\x1b["}
 
 func c15Run(r *vkit.Run) {
 	idx := 0
@@ -411,7 +413,7 @@ func c15Run(r *vkit.Run) {
 		fn()
 		r.NonTrivial()
 	})
-	r.Note("bounds", fmt.Sprintf("0..%d containers x 3 entry-count patterns x 3 timestamp patterns (distinct interleaved, all equal, reversed) x 17 message offsets x up to 3 stream rotations x 8 option combinations; plus all results of 2 streams x <=2 entries over 2 timestamps x 17 messages (1/%d lattice on the second stream) in 4 stream-identity variants; every byte value 0..255 alone, doubled and inside a message; end to end (argv -> fake daemon -> printed bytes): 1-3 containers x 3 timestamp patterns x 8 message offsets x 20 spellings of the --timestamp/-t, --container/-c, --color flags incl. their defaults, and four kinds of result without entries", maxN, step))
+	r.Note("bounds", fmt.Sprintf("0..%d containers x 3 entry-count patterns x 3 timestamp patterns (distinct interleaved, all equal, reversed) x 21 message offsets x up to 3 stream rotations x 8 option combinations; plus all results of 2 streams x <=2 entries over 2 timestamps x 21 messages (1/%d lattice on the second stream) in 4 stream-identity variants; every byte value 0..255 alone, doubled and inside a message; end to end (argv -> fake daemon -> printed bytes): 1-3 containers x 3 timestamp patterns x 8 message offsets x 20 spellings of the --timestamp/-t, --container/-c, --color flags incl. their defaults, and four kinds of result without entries", maxN, step))
 }
 
 // ---- end to end: the command itself, from argv over a fake daemon to the printed bytes ----
